@@ -652,6 +652,13 @@ class _Rename(ast.NodeTransformer):
         return node
 
 
+def _pure_chain(e):
+    """a name or a chain of attribute reads on a name"""
+    while isinstance(e, ast.Attribute):
+        e = e.value
+    return isinstance(e, ast.Name)
+
+
 class Inliner:
     MAX_STMTS = 60
 
@@ -827,6 +834,30 @@ class Inliner:
                     if len(defs) == 1 and len(stores) == 1 and isinstance(defs[0].value, ast.Call) and isinstance(defs[0].value.func, ast.Name):
                         existing = ce.id
                         ce = defs[0].value
+                if not isinstance(ce, ast.Call) and existing is None and _pure_chain(ce) and len(s.items) == 1:
+                    # with E [as v]:   E an existing object whose class got the with-protocol added (the only class of the
+                    # package that has it): E.__enter__(); try: body  finally: E.__exit__(None, None, None)
+                    owners = [(m2, c2) for m2, t2 in self.trees.items() for c2 in t2.body if isinstance(c2, ast.ClassDef)
+                              and {"__enter__", "__exit__"} <= {x.name for x in c2.body if isinstance(x, ast.FunctionDef)}]
+                    if len(owners) == 1 and (owners[0][0] + "." + owners[0][1].name + ".__exit__") not in self.known:
+                        c2 = owners[0][1]
+                        en2 = next(x for x in c2.body if isinstance(x, ast.FunctionDef) and x.name == "__enter__")
+                        ex2 = next(x for x in c2.body if isinstance(x, ast.FunctionDef) and x.name == "__exit__")
+                        exc2 = {a.arg for a in ex2.args.args[1:]}
+                        if (len(ex2.args.args) == 4 and len(en2.args.args) == 1 and not en2.decorator_list and not ex2.decorator_list
+                                and not any(isinstance(n, ast.Name) and n.id in exc2 for n in ast.walk(ex2))
+                                and not any(not (r.value is None or (isinstance(r.value, ast.Constant) and not r.value.value)) for r in _returns_in(ex2))
+                                and (it.optional_vars is None or isinstance(it.optional_vars, ast.Name))):
+                            def mcall(meth, args):
+                                return ast.Call(func=ast.Attribute(value=copy.deepcopy(ce), attr=meth, ctx=ast.Load()), args=args, keywords=[])
+                            first = ast.Expr(value=mcall("__enter__", [])) if it.optional_vars is None else ast.Assign(targets=[ast.Name(id=it.optional_vars.id, ctx=ast.Store())], value=mcall("__enter__", []))
+                            new = [first, ast.Try(body=s.body, handlers=[], orelse=[], finalbody=[ast.Expr(value=mcall("__exit__", [ast.Constant(value=None) for _ in range(3)]))])]
+                            new = [ast.fix_missing_locations(ast.copy_location(x, s)) for x in new]
+                            lst[i - 1:i] = new
+                            i += len(new) - 1
+                            changed = True
+                            self.stats.setdefault("with", []).append(owners[0][0] + "." + c2.name)
+                    continue
                 if not (isinstance(ce, ast.Call) and isinstance(ce.func, ast.Name)):
                     continue
                 nc = self._new_class(mn, ce.func.id)
@@ -1196,7 +1227,7 @@ class Inliner:
             q = modname + "." + f.value.id + "." + f.attr
             if q in self.index and isinstance(self.index[q][1], ast.ClassDef):
                 return q, None
-        if isinstance(f, ast.Attribute) and _simple_arg(f.value) and not f.attr.startswith("__"):
+        if isinstance(f, ast.Attribute) and _simple_arg(f.value) and (not f.attr.startswith("__") or f.attr in ("__enter__", "__exit__")):
             # <object>.helper(...): a method outside the inventory whose name is defined exactly once in the package (and is nobody's
             # attribute otherwise) can only be that one
             cands = [q for q, e in self.index.items() if e[1] is not None and q.endswith("." + f.attr) and q not in self.known]
